@@ -206,7 +206,7 @@ theorem fser_equiv : ∀ (f : FieldDecl) (v : PyVal),
               rw [List.map_congr_left (g := id) (fun x hx => (isNumOrStr_props O item x hn (hall x hx)).1)]
               simp
             rw [hid, mapE_ok_id xs (fun x hx => (isNumOrStr_props O item x hn (hall x hx)).2)]
-            simp [fser, hn, mkSeq]
+            simp [fser, hn, mkSeq, fList, iterElems]
           · simp only [fser, hn, Bool.false_eq_true, if_false, nonFastRef_nil, fList_list, hcongr]
         · simp only [fser, fList_list, hcongr]
       · rw [canonV_seq] at hj
